@@ -36,6 +36,7 @@ class LegResult:
         self.notes = []
         self.wall_s = 0.0
         self.harness_errors = []
+        self.sets = collections.defaultdict(set)
 
     def merge_into(self, cov):
         pass
@@ -112,6 +113,8 @@ def _record_end(res, leg, j, desc):
         res.tags[t] += 1
     for k, v in j.get("counts", {}).items():
         res.counts[k] += v
+    for k, v in j.get("sets", {}).items():
+        res.sets[k].update(v)
     if j.get("note") is not None and len(res.notes) < 20:
         res.notes.append(j["note"])
     st = j["status"]
